@@ -83,6 +83,8 @@ pub struct DeviceDesc {
     pub stale_address: u16,
     /// Serve PDO configuration through CoE (object dictionary 0x1C1x / 0x16xx / 0x1Axx).
     pub coe_pdo: bool,
+    /// Oversampling factors per PDO index the application expects (C08).
+    pub oversampling: Vec<(u16, u16)>,
 }
 
 pub const CAT_STRINGS: u16 = 10;
@@ -129,12 +131,13 @@ impl DeviceDesc {
             ram_bytes: 8192,
             stale_address: 0,
             coe_pdo: false,
+            oversampling: vec![],
         }
     }
 
     /// Expected byte length of the process data behind sync manager `sm` (from the PDO list).
     pub fn sm_pd_bytes(&self, sm: u8) -> u16 {
-        let bits: u32 = self.pdos.iter().filter(|p| p.sm == sm).map(|p| p.bits()).sum();
+        let bits: u32 = self.pdos.iter().filter(|p| p.sm == sm).map(|p| p.bits() * self.oversampling.iter().find(|(i, _)| *i == p.index).map_or(1, |(_, f)| *f as u32)).sum();
         bits.div_ceil(8) as u16
     }
 
@@ -438,5 +441,80 @@ pub fn gen_desc(rng: &mut Rng, o: &GenOpts) -> DeviceDesc {
     while d.eeprom_bytes < need {
         d.eeprom_bytes *= 2;
     }
+    d
+}
+
+/// Device with process data for the mapping properties (C07/C08/C20).
+pub struct PdOpts {
+    pub coe: bool,
+    pub max_pdos: usize,
+    pub max_sms_per_dir: usize,
+    pub contiguous: bool,
+    pub fmmu_ex: bool,
+}
+
+pub fn gen_pd_desc(rng: &mut Rng, o: &PdOpts) -> DeviceDesc {
+    let mut d = DeviceDesc::simple("PD");
+    d.serial = rng.u32();
+    d.sii_read8 = rng.bool();
+    let mut ram = 0x1000u16;
+    if o.coe {
+        d.mailbox = Some((ram, 128, ram + 128, 128));
+        d.mailbox_protocols = MBX_COE;
+        d.sms.push(SmDesc { start: ram, len: 128, control: 0x26, enable: 1, usage: 1 });
+        d.sms.push(SmDesc { start: ram + 128, len: 128, control: 0x22, enable: 1, usage: 2 });
+        ram += 256;
+        d.coe_pdo = true;
+        d.coe_details = 0x0f;
+    }
+    let n_out = rng.usize_below(o.max_sms_per_dir + 1);
+    let n_in = rng.usize_below(o.max_sms_per_dir + 1);
+    // outputs first (conventional SM2 = outputs, SM3 = inputs), sometimes the other way round
+    let mut dirs: Vec<u8> = std::iter::repeat(3u8).take(n_out).chain(std::iter::repeat(4u8).take(n_in)).collect();
+    if rng.chance(1, 4) {
+        rng.shuffle(&mut dirs);
+    }
+    for usage in dirs {
+        d.sms.push(SmDesc { start: 0, len: 0, control: if usage == 3 { 0x64 } else { 0x20 }, enable: 1, usage });
+    }
+    // PDOs
+    for dir in [3u8, 4u8] {
+        let sms: Vec<usize> = (0..d.sms.len()).filter(|i| d.sms[*i].usage == dir).collect();
+        if sms.is_empty() {
+            continue;
+        }
+        let np = rng.usize_below(o.max_pdos + 1);
+        for k in 0..np {
+            let sm = *rng.pick(&sms);
+            let ne = 1 + rng.usize_below(4);
+            let base = if dir == 4 { 0x1a00 } else { 0x1600 };
+            d.pdos.push(PdoDesc { index: base + k as u16, sm: sm as u8, tx: dir == 4, entries: (0..ne).map(|e| PdoEntryDesc { index: 0x6000 + k as u16, sub: e as u8 + 1, bits: rng.edgy(1, 64) as u8 }).collect() });
+        }
+    }
+    // physical placement of the process data buffers
+    for i in 0..d.sms.len() {
+        if d.sms[i].usage >= 3 {
+            let len = d.sm_pd_bytes(i as u8);
+            d.sms[i].start = ram;
+            d.sms[i].len = len;
+            ram += if o.contiguous { len } else { len + 3 * 16 + rng.below(64) as u16 };
+        }
+    }
+    // one FMMU per process data sync manager (a device needing two non-contiguous buffers in one
+    // direction has two FMMUs for it), in either order, optionally a mailbox-state FMMU
+    let n_o = d.sms.iter().filter(|s| s.usage == 3).count().max(1);
+    let n_i = d.sms.iter().filter(|s| s.usage == 4).count().max(1);
+    let mut f: Vec<u8> = std::iter::repeat(1u8).take(n_o).chain(std::iter::repeat(2u8).take(n_i)).collect();
+    if rng.bool() {
+        f.reverse();
+    }
+    if rng.bool() {
+        f.push(3);
+    }
+    d.fmmus = f;
+    if o.fmmu_ex {
+        d.fmmu_ex = (0..d.sms.len() as u8).collect();
+    }
+    d.eeprom_bytes = build_sii(&d).len().next_power_of_two().max(2048);
     d
 }
